@@ -1011,6 +1011,40 @@ func hotStorm(c *core.Ctx, w *core.W, only string, sink func(core.Violation)) {
 			want[i] = pv(seq.e, seq.vers, i)
 		}
 		storm(name, "NewVersion", nv, want, func(i int) string { return pv(sh.e, sh.vers, i) }, func(i int) []string { return []string{spec.vstr[i]} })
+		// ... and over 4096 distinct strings at once: direct-mapped and sharded parse caches are shared by strings that
+		// fall into the same slot (one pair in 65 536), and two parses of DIFFERENT strings must meet in one slot
+		{
+			var big []string
+			seenB := map[string]bool{}
+			for tries := 0; len(big) < 4096 && tries < 3000; tries++ {
+				for _, x := range gen.Cluster(name, r) {
+					if len(big) < 4096 && !seenB[x] {
+						seenB[x] = true
+						if v, err, pn := seq.e.SafeNewVersion(x); pn == nil && err == nil && v != nil {
+							big = append(big, x)
+						}
+					}
+				}
+			}
+			if len(big) >= 256 {
+				wantB := make([]string, len(big))
+				pb := func(e *eco.Eco, i int) string {
+					v, err := e.NewVersion(big[i])
+					if err != nil || v == nil {
+						return "rejected"
+					}
+					w2, err := e.NewVersion(big[(i+1)%len(big)])
+					if err != nil || w2 == nil {
+						return v.String()
+					}
+					return v.String() + "|" + itoa(v.Compare(w2))
+				}
+				for i := range wantB {
+					wantB[i] = pb(seq.e, i)
+				}
+				storm(name, "NewVersion-many-strings", len(big), wantB, func(i int) string { return pb(sh.e, i) }, func(i int) []string { return []string{big[i], big[(i+1)%len(big)]} })
+			}
+		}
 		if nr := len(spec.rstr); nr > 0 {
 			wantR := make([]string, nr)
 			pr := func(e *eco.Eco, vs []eco.Ver, i int) string {
